@@ -201,3 +201,12 @@ func toString(v any) string {
 	b, _ := yaml.Marshal(v)
 	return string(b)
 }
+
+// parseYAMLTree parses a document emitted by the harness back into a tree.
+func parseYAMLTree(doc string) (map[string]any, error) {
+	var m map[string]any
+	if err := yaml.Unmarshal([]byte(doc), &m); err != nil {
+		return nil, err
+	}
+	return normalizeYAMLTree(m).(map[string]any), nil
+}
